@@ -64,7 +64,10 @@ def gen_examples(rng, nmax=8):
         fam = rng.choice([['https', 'http'], ['http', 'https', 'httpsx'], ['id7x', 'id7'], ['ab12', 'ab1', 'ab'],
                           ['ab', 'cd1234', 'ef12', 'gh123456'], ['x', 'y12345', 'z1'], ['q7777777', 'r', 's77'],
                           ['1\u00b23', '4\u00b3', '\u00b25'], ['12\u00b2', '\u00b23', '4\u00b25\u00b3'],
-                          ['abc', 'de', '   ', 'fgh'], ['\t', 'xy', ' \u00a0 '], ['  ', 'a1']])
+                          ['abc', 'de', '   ', 'fgh'], ['\t', 'xy', ' \u00a0 '], ['  ', 'a1'],
+                          # a string and the same string with one trailing line feed ('$' matches before it, so the
+                          # second is counted for the first's expression and its own expression has frequency 0)
+                          ['abc', 'abc\n'], ['10', '22', '10\n', '37'], ['x1', 'x1\n', 'y2'], ['a-b\n', 'a-b', 'c-d']])
         fam = list(fam)
         if rng.random() < 0.5:
             fam.reverse()
